@@ -14,8 +14,12 @@ class Inexact(Exception):
 
 def enc_float(x):
     x = float(x)
-    if x != x or x in (float('inf'), float('-inf')):
+    if x != x:
         raise Inexact(repr(x))
+    if x == float('inf'):
+        return 'inf'
+    if x == float('-inf'):
+        return '-inf'
     n, d = x.as_integer_ratio()
     e = d.bit_length() - 1
     return str(n) if e == 0 else "%d^%d" % (n, e)
